@@ -346,8 +346,8 @@ def rule_type_domain(ctx):
                         node("When", matched=Const(True), then=node("Var", this=Const("DELETE"))),
                         node("When", matched=Const(False), then=node("Insert", this=Const(None), expression=node("Tuple", expressions=Lst([])))),
                     ]))
-        f = I.global_lookup("transforms_merge", "_counts")
-        return I.call(f, [mexp], {}, None)
+        from .c12 import call_part
+        return call_part(prog, I, "_counts", mexp)
 
     for p in explore(prog, Hooks, run, max_paths=16):
         for e in p.effects:
